@@ -325,6 +325,171 @@ fn part_b(rep: &mut Report, seed: u64, index: u64) {
     }
 }
 
+// ---------------------------------------------------------------------------------------------
+// (c) the same rule through the client: descriptors carry transport hints as relying parties send them
+// ---------------------------------------------------------------------------------------------
+
+fn hinted(id: &[u8], rng: &mut Rng) -> PublicKeyCredentialDescriptor {
+    use passkey_types::webauthn::AuthenticatorTransport as T;
+    let all = [T::Usb, T::Nfc, T::Ble, T::Hybrid, T::Internal];
+    let transports = match rng.below(5) {
+        0 => None,
+        1 => Some(vec![]),
+        2 => Some(vec![T::Usb, T::Nfc]),
+        3 => Some(vec![T::Internal, T::Hybrid]),
+        _ => Some((0..rng.range(1, 3)).map(|_| *rng.pick(&all)).collect()),
+    };
+    PublicKeyCredentialDescriptor { ty: passkey_types::webauthn::PublicKeyCredentialType::PublicKey, id: id.to_vec().into(), transports }
+}
+
+fn part_c(rep: &mut Report, seed: u64, index: u64) {
+    use passkey_client::DefaultClientData;
+    let mut rng = Rng::derive(seed, "c05c", index);
+    let content = gen_content(&mut rng);
+    let rig = Rig::ok(Disc::Full);
+    for p in &content.creds {
+        rig.store.insert_raw(p.clone());
+    }
+    let mut client = rig.client(AuthCfg { counters: rng.bool(), ..Default::default() });
+    for step in 0..rng.range(2, 6) {
+        rep.eval();
+        let rp = *rng.pick(&RPS[..4]);
+        let snapshot = rig.store.snapshot();
+        let cur = Content { creds: rig.store.passkeys() };
+        let (class, ids) = gen_ids(&mut rng, &cur, rp);
+        let list: Option<Vec<PublicKeyCredentialDescriptor>> = ids.as_ref().map(|l| l.iter().map(|i| hinted(i, &mut rng)).collect());
+        let nonempty = ids.as_ref().map_or(false, |l| !l.is_empty());
+        let is_get = rng.bool();
+        let case = json!({"index": index, "part": "c", "step": step, "op": if is_get {"authenticate"} else {"register"}, "rp": rp, "list_class": class,
+            "list": list.as_ref().map(|l| l.iter().map(|d| json!({"id": hex_short(&d.id), "transports": d.transports.as_ref().map(|t| t.iter().map(|x| format!("{x:?}")).collect::<Vec<_>>())})).collect::<Vec<_>>()),
+            "store": content_json(&cur)});
+        let origin = crate::util::url(&format!("https://{rp}"));
+        rep.nontrivial(fnv_str(&format!("c|{is_get}|{class}|rp{}|n{}|h{}", RPS.iter().position(|r| *r == rp).unwrap(), snapshot.len().min(8),
+            list.as_ref().map_or(0, |l| l.iter().filter(|d| d.transports.as_ref().map_or(false, |t| !t.is_empty())).count().min(2)))));
+        if is_get {
+            let opts = crate::util::request_options(Some(rp), &[7u8; 16], list, passkey_types::webauthn::UserVerificationRequirement::Discouraged);
+            let own_first = snapshot.iter().find(|c| c.rp_id == rp).map(|c| c.id.clone());
+            match catch(|| block_on(client.authenticate(&origin, opts, DefaultClientData))) {
+                Err((sig, d)) => rep.violate(&format!("c: authenticate {sig}"), d, case),
+                Ok(Ok(cred)) => {
+                    rep.count("c_get_ok");
+                    let used = cred.raw_id.to_vec();
+                    match snapshot.iter().find(|c| c.id == used) {
+                        None => rep.violate("c: assertion made with a credential that is not in the store", hex_short(&used), case.clone()),
+                        Some(c) if c.rp_id != rp => rep.violate("c: assertion for one RP made with a credential bound to another RP", c.rp_id.clone(), case.clone()),
+                        _ => {}
+                    }
+                    if nonempty {
+                        if !ids.as_ref().unwrap().contains(&used) {
+                            rep.violate("c: assertion made with a credential not named in the non-empty allow list", hex_short(&used), case.clone());
+                        }
+                    } else if Some(&used) != own_first.as_ref() {
+                        rep.violate("c: absent/empty allow list did not select the first credential the store lists for the RP", hex_short(&used), case.clone());
+                    }
+                }
+                Ok(Err(_)) => {
+                    rep.count("c_get_err");
+                    let eligible = snapshot.iter().any(|c| c.rp_id == rp && (!nonempty || ids.as_ref().unwrap().contains(&c.id)));
+                    // the property restricts which credential may sign; it does not promise success
+                    if eligible {
+                        rep.count("c_get_err_although_eligible");
+                    }
+                }
+            }
+        } else {
+            let mut opts = crate::util::creation_options(Some(rp), b"same-user-handle", "n", &[8u8; 16], vec![pk_param(coset::iana::Algorithm::ES256)]);
+            opts.public_key.exclude_credentials = list;
+            let should_exclude = nonempty && snapshot.iter().any(|c| c.rp_id == rp && ids.as_ref().unwrap().contains(&c.id));
+            let res = catch(|| block_on(client.register(&origin, opts, DefaultClientData)));
+            let after = rig.store.snapshot();
+            match res {
+                Err((sig, d)) => rep.violate(&format!("c: register {sig}"), d, case),
+                Ok(Ok(_)) => {
+                    rep.count("c_make_ok");
+                    if should_exclude {
+                        rep.violate("c: registration succeeded although the exclude list names a credential held for the same RP", String::new(), case.clone());
+                    }
+                }
+                Ok(Err(e)) => {
+                    let excluded = matches!(e, passkey_client::WebauthnError::AuthenticatorError(0x19));
+                    if excluded {
+                        rep.count("c_excluded");
+                    }
+                    if excluded != should_exclude {
+                        rep.violate("c: credential-excluded reported exactly when it should not be (or another error when it should)", format!("{e:?}, list class {class}"), case.clone());
+                    }
+                    if after != snapshot {
+                        rep.violate("c: refused registration changed the store", format!("{e:?}"), case.clone());
+                    }
+                }
+            }
+        }
+    }
+}
+
+// ---------------------------------------------------------------------------------------------
+// (d) a conforming store whose items are not `Passkey`s: some entries cannot be converted
+// ---------------------------------------------------------------------------------------------
+
+fn part_d(rep: &mut Report, seed: u64, index: u64) {
+    use crate::collab::{VaultStore, VaultUv};
+    let mut rng = Rng::derive(seed, "c05d", index);
+    let content = gen_content(&mut rng);
+    let rig = Rig::ok(Disc::Full);
+    for p in &content.creds {
+        rig.store.insert_raw(p.clone());
+    }
+    let locked: std::collections::HashSet<Vec<u8>> = content.creds.iter().filter(|_| rng.chance(1, 3)).map(|p| p.credential_id.to_vec()).collect();
+    let store = VaultStore { inner: rig.store.clone(), locked: Arc::new(std::sync::Mutex::new(locked.clone())) };
+    let mut auth = passkey_authenticator::Authenticator::new(passkey_types::ctap2::Aaguid::new_empty(), store, VaultUv(rig.uv.clone()));
+    for step in 0..rng.range(2, 6) {
+        rep.eval();
+        let rp = *rng.pick(&RPS[..4]);
+        let snapshot = rig.store.snapshot();
+        let cur = Content { creds: rig.store.passkeys() };
+        let (class, ids) = gen_ids(&mut rng, &cur, rp);
+        let list = descriptors(&ids, true);
+        let nonempty = ids.as_ref().map_or(false, |l| !l.is_empty());
+        let case = json!({"index": index, "part": "d", "step": step, "rp": rp, "list_class": class, "list": ids.as_ref().map(|l| l.iter().map(|i| hex_short(i)).collect::<Vec<_>>()),
+            "store": content_json(&cur), "unconvertible": locked.iter().map(|i| hex_short(i)).collect::<Vec<_>>()});
+        rig.log.clear();
+        let listed: Vec<&crate::collab::CredSnap> = snapshot.iter().filter(|c| c.rp_id == rp && (!nonempty || ids.as_ref().unwrap().contains(&c.id))).collect();
+        let first_locked = listed.first().map_or(false, |c| locked.contains(&c.id));
+        rep.nontrivial(fnv_str(&format!("d|{class}|rp{}|n{}|l{}|f{first_locked}", RPS.iter().position(|r| *r == rp).unwrap(), listed.len().min(4), listed.iter().filter(|c| locked.contains(&c.id)).count().min(3))));
+        match catch(|| block_on(auth.get_assertion(ga_request(rp, &[5u8; 32], list, None, true, false)))) {
+            Err((sig, d)) => rep.violate(&format!("d: get_assertion {sig}"), d, case),
+            Ok(Ok(resp)) => {
+                rep.count("d_get_ok");
+                let used = resp.credential.as_ref().map(|d| d.id.to_vec()).unwrap_or_default();
+                let shown = rig.log.snapshot().iter().rev().find_map(|e| if let Ev::CheckUser { shown, .. } = &e.ev { Some(shown.clone()) } else { None }).flatten();
+                if locked.contains(&used) {
+                    rep.violate("d: assertion made with a store item that cannot be converted into a credential", hex_short(&used), case.clone());
+                }
+                match snapshot.iter().find(|c| c.id == used) {
+                    None => rep.violate("d: assertion made with a credential that is not in the store", hex_short(&used), case.clone()),
+                    Some(c) if c.rp_id != rp => rep.violate("d: assertion for one RP made with a credential bound to another RP", c.rp_id.clone(), case.clone()),
+                    _ => {}
+                }
+                if nonempty && !ids.as_ref().unwrap().contains(&used) {
+                    rep.violate("d: assertion made with a credential not named in the non-empty allow list", hex_short(&used), case.clone());
+                }
+                if !nonempty && listed.first().map(|c| &c.id) != Some(&used) {
+                    rep.violate("d: absent/empty allow list did not select the first credential the store lists for the RP", format!("used {} first listed {:?}", hex_short(&used), listed.first().map(|c| hex_short(&c.id))), case.clone());
+                }
+                if shown.as_ref() != Some(&used) {
+                    rep.violate("d: the credential shown to the user is not the one that signed", format!("shown {:?} used {}", shown.as_ref().map(|s| hex_short(s)), hex_short(&used)), case.clone());
+                }
+            }
+            Ok(Err(e)) => {
+                rep.count(&format!("d_get_err:{:#x}", status_byte_ref(&e)));
+                if first_locked {
+                    rep.count("d_first_listed_unconvertible_refused");
+                }
+            }
+        }
+    }
+}
+
 /// end-to-end consequence over the shipped in-memory store: credential of RP A, assertion requested for RP B
 fn part_b_e2e(rep: &mut Report, seed: u64, index: u64) {
     let mut rng = Rng::derive(seed, "c05e", index);
@@ -360,7 +525,7 @@ pub fn run(args: &Args) -> Report {
         "C05",
         &args.tier,
         args.seed,
-        "(a) get_assertion / make_credential over a reference store holding 0-4 credentials for each of 3 RPs (identical user handles) with allow/exclude lists absent, empty, hit, hit+miss, miss, ids of another RP, all reversed; (b) the same contents in MemoryStore, Option<Passkey> and their lock wrappers queried with generated (id list, RP) pairs and compared with the contract; distinct by (part, store type, list class, RP, content size); non-trivial when the id list or RP id discriminates (>= 2 RPs or >= 2 credentials involved)",
+        "(a) get_assertion / make_credential over a reference store holding 0-4 credentials for each of 3 RPs (identical user handles) with allow/exclude lists absent, empty, hit, hit+miss, miss, ids of another RP, all reversed; (b) the same contents in MemoryStore, Option<Passkey> and their lock wrappers queried with generated (id list, RP) pairs and compared with the contract; (c) the same rule through Client::register / authenticate with descriptors carrying transport hints (absent, empty, usb+nfc, internal+hybrid, random); (d) get_assertion over a conforming store whose items are vault entries, a third of which cannot be converted into a credential; distinct by (part, store type, list class, RP, content size); non-trivial when the id list or RP id discriminates (>= 2 RPs or >= 2 credentials involved)",
     );
     rep.assumptions.push("the documented contract: find_credentials returns all credentials matching the ids (when given) and the rp_id; Err(NoCredentials) is equivalent to an empty result".into());
     let only = replay_index(args);
@@ -379,13 +544,27 @@ pub fn run(args: &Args) -> Report {
             part_b(&mut rep, args.seed, idx);
         }
     }
+    for i in 0..n / 2 {
+        let idx = 3_000_000 + i;
+        if only.map_or(true, |o| o == idx) {
+            if let Err((sig, d)) = catch(|| part_c(&mut rep, args.seed, idx)) {
+                rep.violate(&format!("c: {sig}"), d, json!({"index": idx}));
+            }
+        }
+        let idx = 4_000_000 + i;
+        if only.map_or(true, |o| o == idx) {
+            if let Err((sig, d)) = catch(|| part_d(&mut rep, args.seed, idx)) {
+                rep.violate(&format!("d: {sig}"), d, json!({"index": idx}));
+            }
+        }
+    }
     for i in 0..4 {
         let idx = 2_000_000 + i;
         if only.map_or(true, |o| o == idx) {
             part_b_e2e(&mut rep, args.seed, idx);
         }
     }
-    if only.is_none() && (rep.get("a_get_ok") == 0 || rep.get("a_excluded") == 0 || rep.get("b_wrapper_lookups") == 0) {
+    if only.is_none() && (rep.get("a_get_ok") == 0 || rep.get("a_excluded") == 0 || rep.get("b_wrapper_lookups") == 0 || rep.get("c_excluded") == 0 || rep.get("c_get_ok") == 0 || rep.get("d_get_ok") == 0 || rep.get("d_first_listed_unconvertible_refused") == 0) {
         rep.inconclusive("no successful assertion / no exclusion / no wrapper lookup observed".into());
     }
     rep
